@@ -35,6 +35,7 @@ static bool     g_expect_guards;         // request-processing steps: no state i
 // C04 substitution: the guard of state g_sub_guard (entry guard if g_sub_is_entry) vetoes round 1 and requests g_sub_dest instead
 static int      g_sub_guard = -1, g_sub_dest = 0; static bool g_sub_is_entry = true, g_sub_done, g_sub_forever;
 static int      g_round_now; static bool g_cancel_round[3]; static unsigned g_sub_guard_calls;
+static int      g_pp_a = -1, g_pp_b = -1; static unsigned g_pp_rounds;   // C04 'ping-pong': the entry guard of the state a round is about to enter APPROVES and requests the other of two destinations
 static bool     g_sub_veto2;             // with g_sub_nocancel: the guards of the SECOND round (the one the keyed guard asked for) may veto it, symbolically
 static bool     g_sub_nocancel;          // the keyed guard requests g_sub_dest WITHOUT vetoing (a second approved round in one step)
 // C02/C12: answers of select()/rank()/utility(): symbolic, one answer per state and step (memoised), recorded for the oracle
@@ -43,6 +44,7 @@ static uint8_t  g_sel_val[VM_NS]; static int8_t g_rank_val[VM_NS]; static float 
 static unsigned g_rng_draws; static float g_rng_val;
 // C06 plans: the keyed actor succeeds / fails in its update(); heads record the notifications they receive
 static int      g_actor = -1, g_action = 0;      // action: 1 = succeed(), 2 = fail()
+static int      g_actor2 = -1, g_action2 = 0;    // a second reporting state (orthogonal prongs reporting in the same step)
 static uint8_t  g_plan_succeeded[VM_NS], g_plan_failed[VM_NS];
 // C14 payloads: the step's requests in order (destination, has payload, value); checked in guards, on enter and afterwards
 static int      g_pay_n; static int g_pay_dest[2]; static bool g_pay_has[2]; static int32_t g_pay_val[2];
@@ -91,8 +93,29 @@ struct Inj : FSM::State {
 #define OWN_DOWN(ph)
 #define OWN_UP(ph)
 #endif
+#if defined(VM_UTILITY) && defined(VM_MIXED_OVERRIDES)
+// C16 (interface logging reports a method only for states that OVERRIDE it): states with an even id override utility() but NOT rank()
+#define VM_HAS_RANK(ID) ((ID) % 2 == 1)
+#else
+#define VM_HAS_RANK(ID) 1
+#endif
+#ifdef VM_UTILITY
+template <int ID, bool HAS_RANK> struct StRankLayer;
+template <int ID> struct StRankLayer<ID, true> : VM_STATE_BASE(ID) {
+  using Base = FSM::State;
+  typename Base::Rank rank(const typename Base::Control&) {
+    trace_push(ID, Method::RANK);
+    if (!g_rank_called[ID]) { g_rank_called[ID] = true; g_rank_val[ID] = nd_i8(); VASSUME(g_rank_val[ID] >= 0 && g_rank_val[ID] <= 1); }
+    return g_rank_val[ID];
+  }
+};
+template <int ID> struct StRankLayer<ID, false> : VM_STATE_BASE(ID) {};       // inherits State::rank() == 0
+#define VM_ST_PARENT(ID) StRankLayer<ID, VM_HAS_RANK(ID)>
+#else
+#define VM_ST_PARENT(ID) VM_STATE_BASE(ID)
+#endif
 template <int ID>
-struct St : VM_STATE_BASE(ID) {
+struct St : VM_ST_PARENT(ID) {
   using Base = FSM::State;
 #ifdef VM_PAYLOAD
   template <typename TS> static void check_payloads(const TS& ts, bool all_present) {
@@ -128,6 +151,13 @@ struct St : VM_STATE_BASE(ID) {
     if (g_sub_guard >= 0 && !g_sub_forever && c.pendingTransitions().count() > 0 && c.pendingTransitions()[0].destination == (StateID) g_sub_dest) round = 2;
     g_round_now = round;
     bool cancel;
+    if (g_pp_a >= 0) {
+      cancel = false;
+      if (is_entry && c.pendingTransitions().count() > 0 && c.pendingTransitions()[0].destination == (StateID) ID && (ID == g_pp_a || ID == g_pp_b)) {
+        ++g_pp_rounds;
+        if (g_pp_rounds < 9) c.changeTo((StateID) (ID == g_pp_a ? g_pp_b : g_pp_a));      // (gives up after 8 so that a library without a bound still yields a finite run)
+      }
+    } else
     if (ID == g_sub_guard && is_entry == g_sub_is_entry && g_sub_nocancel && !g_sub_done) {
       g_sub_done = true; cancel = false; c.changeTo((StateID) g_sub_dest);
     } else if (ID == g_sub_guard && is_entry == g_sub_is_entry && !g_sub_nocancel && (g_sub_forever || (round == 1 && !g_sub_done))) {
@@ -166,11 +196,8 @@ struct St : VM_STATE_BASE(ID) {
     return g_sel_val[ID];
   }
 #ifdef VM_UTILITY
-  typename Base::Rank rank(const typename Base::Control&) {
-    if (!g_rank_called[ID]) { g_rank_called[ID] = true; g_rank_val[ID] = nd_i8(); VASSUME(g_rank_val[ID] >= 0 && g_rank_val[ID] <= 1); }
-    return g_rank_val[ID];
-  }
   typename Base::Utility utility(const typename Base::Control&) {
+    trace_push(ID, Method::UTILITY);
     if (!g_util_called[ID]) { g_util_called[ID] = true; g_util_val[ID] = nd_f32(); VASSUME(g_util_val[ID] >= 0.0f && g_util_val[ID] <= 1000.0f); }   // finite, non-negative
     return g_util_val[ID];
   }
@@ -197,6 +224,7 @@ struct St : VM_STATE_BASE(ID) {
   void update(typename Base::FullControl& c)   { VASSERT(C03, g_entered[ID], "update is delivered only to an entered state"); seq_push(ID, PH_UPDATE); trace_push(ID, Method::UPDATE); OWN_DOWN(1); note_this(); issue(c);
 #ifdef VM_PLANS
     if (ID == g_actor) { if (g_action == 1) c.succeed(); if (g_action == 2) c.fail(); }
+    if (ID == g_actor2) { if (g_action2 == 1) c.succeed(); if (g_action2 == 2) c.fail(); }
 #endif
   }
 #ifdef VM_PLANS
